@@ -80,6 +80,12 @@ CHECKS = {
         note="Trusts CPython 3.12's sys.monitoring events as ground truth; nested functions/closures/lambdas are MAY-log; named parameters exclude *args/**kwargs.",
         ref="DESIGN.md section 4 C02",
     ),
+    "C18": dict(
+        technique="stateless choice-point exploration (deviation-bounded) with the sampling RNG answered by the explorer: every answer vector for every program x rate, exact expectation instead of statistics (E2)",
+        text="The `random` module seen by monkeytype.tracing is replaced by an explorer-owned seam; for seven programs x six rates every answer vector over {0,1,N-1} is executed (complete up to 6 draws, otherwise all vectors within 3 deviations of always-sample and never-sample; every r in range(N) for a one-call program). Every logged trace must describe a real completed call exactly (ground truth from sys.monitoring), skipped calls leave no residue, rate None/1 traces everything, and the exact expected traced fraction lies within 25% of 1/N.",
+        note="Answers 1..N-1 are treated as one class (justified by the per-answer check); seam loss is detected by calibration.",
+        ref="DESIGN.md section 4 C18",
+    ),
 }
 
 NOT_YET = {}
